@@ -861,8 +861,10 @@ def addr_ref(draw, ctx, node=False):
     forms = ["abs", "root", "rootof", "me", "meinline", "framer", "framerme", "framernamed", "framerinline",
              "framernamedinline", "frame", "frameme", "framenamed", "frameother", "frameinline",
              "framenamedinline", "frameotherinline", "fullinline", "actor", "actorinline"]
+    forms += ["framemeofframer", "framenamedofframer"]
     if ctx.get("moot"):
-        forms += ["framermain", "framemain", "framermaininline", "framemaininline"] * 2
+        forms += ["framermain", "framemain", "framermaininline", "framemaininline", "framemainofframer",
+                  "framemainofframermain"] * 2
     usable_actors = [x for x in (ctx.get("actors") or []) if (ctx.get("names") or {}).get(x[2]) != "main"]
     if usable_actors:
         forms += ["actornamed", "actornamed"]
@@ -898,6 +900,11 @@ def addr_ref(draw, ctx, node=False):
         "framemain": [w, "of", "frame", "main"],
         "framermaininline": ["framer.main." + w],
         "framemaininline": ["frame.main." + w],
+        # frame relation followed by a framer clause whose name is left out (frame main -> framer main, otherwise me)
+        "framemainofframer": [w, "of", "frame", "main", "of", "framer"],
+        "framemainofframermain": [w, "of", "frame", "main", "of", "framer", "main"],
+        "framemeofframer": [w, "of", "frame", "me", "of", "framer"],
+        "framenamedofframer": [w, "of", "frame", "{%s}" % of_, "of", "framer"],
     }
     info = {"form": form, "w": w, "g": g, "gf": gf, "of": of_, "abs": t["abs"][0]}
     if form == "actornamed":
